@@ -37,6 +37,11 @@ type dbSuite struct {
 	scratch  string
 	usedKeys map[string][][]byte
 	nkeys    int
+	// opts profiles (C19): cases come in groups that share one script generator stream and one clock value and
+	// differ only in the storage options
+	optRng   *rand.Rand
+	optCombo int
+	optNow   int64
 	faultAt  int // injected write error: index of the data-file write of the next commit that fails (-1: none)
 	faultCnt int
 	bigTx    int // kvbig: transactions begun so far
@@ -75,7 +80,7 @@ func init() {
 	suites["db"] = func() suite {
 		return &dbSuite{profile: dbProfile}
 	}
-	for _, p := range []string{"kv", "structs", "mixed", "merge", "iso", "list", "set", "zset", "crash", "mcrash", "backup", "mergekv", "kvbig"} {
+	for _, p := range []string{"kv", "structs", "mixed", "merge", "iso", "list", "set", "zset", "crash", "mcrash", "backup", "mergekv", "kvbig", "optskv", "optsmixed"} {
 		p := p
 		suites["db-"+p] = func() suite { return &dbSuite{profile: p} }
 	}
@@ -279,6 +284,18 @@ func (s *dbSuite) newCase(id int) {
 	s.nkeys = 0
 	s.bigTx, s.bigLoad = 0, 3+id%9
 	s.faultAt = -1
+	s.optRng = nil
+	if strings.HasPrefix(s.profile, "opts") {
+		g := 8
+		if s.profile == "optskv" {
+			g = 16
+		}
+		s.optCombo = id % g
+		s.optRng = rand.New(rand.NewSource(harnessSeed*7919 + int64(id/g)))
+		if s.optCombo == 0 || s.optNow == 0 {
+			s.optNow = time.Now().Unix()
+		}
+	}
 	s.openLine = ""
 	s.interned = nil
 	s.images, s.imgNext, s.armedGen, s.capture, s.armed, s.mergeNext = nil, 0, false, false, false, false
@@ -741,7 +758,12 @@ func (s *dbSuite) deadTx() *nutsdb.Tx {
 
 // ---------------------------------------------------------------- generation
 
-func (s *dbSuite) now() int64 { return time.Now().Unix() }
+func (s *dbSuite) now() int64 {
+	if s.optRng != nil {
+		return s.optNow
+	}
+	return time.Now().Unix()
+}
 
 func (s *dbSuite) genKey(r *rand.Rand, b string) []byte {
 	// mostly keys already used in this bucket, sometimes a new one from a family with shared prefixes
@@ -833,6 +855,9 @@ func (s *dbSuite) genValue(r *rand.Rand) []byte {
 }
 
 func (s *dbSuite) gen(r *rand.Rand, step int) string {
+	if s.optRng != nil {
+		r = s.optRng
+	}
 	if !s.opened {
 		s.opened = true
 		mode := 0
@@ -850,6 +875,11 @@ func (s *dbSuite) gen(r *rand.Rand, step int) string {
 			// large buckets: B+ trees of two and three levels, long scans, paging far into a bucket
 			mode = r.Intn(2)
 			seg = []int{256, 512, 1024, 4096}[r.Intn(4)]
+		}
+		if s.optRng != nil && s.openLine == "" {
+			// same script, every combination of RWMode x StartFileLoadingMode x SyncEnable (x RAM index mode)
+			c := s.optCombo
+			s.openLine = fmt.Sprintf("open %d %d %d %d %d", (c>>3)&1, c&1, (c>>1)&1, (c>>2)&1, seg)
 		}
 		if s.openLine == "" {
 			s.openLine = fmt.Sprintf("open %d %d %d %d %d", mode, r.Intn(2), r.Intn(2), r.Intn(2), seg)
@@ -955,7 +985,9 @@ func (s *dbSuite) genOp(r *rand.Rand, dead bool) string {
 	} else if kind == "mcrash" {
 		// mostly overwrites and deletes of few keys: segments that are mostly garbage
 		kind = []string{"kv", "kv", "kv", "kv", "kv", "kv", "set", "zset", "list"}[r.Intn(9)]
-	} else if kind == "mixed" || kind == "merge" || kind == "iso" || kind == "crash" {
+	} else if kind == "optskv" {
+		kind = "kv"
+	} else if kind == "mixed" || kind == "merge" || kind == "iso" || kind == "crash" || kind == "optsmixed" {
 		kind = []string{"kv", "kv", "list", "set", "zset"}[r.Intn(5)]
 		if s.opt.EntryIdxMode != nutsdb.HintKeyValAndRAMIdxMode {
 			kind = "kv"
